@@ -1,7 +1,11 @@
 -- Root of the `RpylibModel` library: every model and proof module is imported here so that
 -- `lake build` (MANIFEST.setup_cmd) checks all of them.
 import RpylibModel.Basic.Proto
+import RpylibModel.Proofs.C02
 import RpylibModel.Proofs.C05
 import RpylibModel.Proofs.C06
 import RpylibModel.ProofsGen.C06Budget
+import RpylibModel.Proofs.C07
+import RpylibModel.Proofs.C08
 import RpylibModel.Proofs.C13
+import RpylibModel.Proofs.C14
